@@ -74,9 +74,9 @@ def merge_options(
     options = raw_plugin_options.copy() if raw_plugin_options else {}
     for option in option_definitions:
         name = option["option"]
-        if user_options.get(name):
-            options[name] = user_options.get(name)
-        elif option.get("default"):
+        if name in user_options:
+            options[name] = user_options[name]
+        elif "default" in option:
             options[name] = option["default"]
         else:
             raise DataGenNameError(
